@@ -78,7 +78,15 @@ def run(ctx):
         elif f[0] == "G":
             evals += 1
             if f[2] != "ok":
-                C.violation(ctx, "marshal-gzip", "tl.Marshal(&objects.GzipPacked{Obj: ...}) does not serialise: %s" % f[3][:120],
+                # the known finding is exactly the "not implemented" panic of GzipPacked.MarshalTL; anything else is new
+                txt = ""
+                if f[3].startswith("panic:"):
+                    try:
+                        txt = bytes.fromhex(f[3][6:]).decode("utf-8", "replace")
+                    except ValueError:
+                        txt = f[3]
+                key = "marshal-gzip" if (f[2] == "panic" and "not implemented" in txt) else "marshal-gzip:other"
+                C.violation(ctx, key, "tl.Marshal(&objects.GzipPacked{Obj: ...}) does not serialise: %s %s" % (f[2], (txt or f[3])[:120]),
                             {"kind": "G", "value": "objects.GzipPacked{Obj: &tl.PseudoTrue{}}", "expected": "bytes", "got": f[3]})
         elif f[0] == "B":
             _, cid, tid, n, cls, hdr = f
